@@ -3,16 +3,17 @@
 # copy of /repo (outside /repo and /verif, removed afterwards) and the named check
 # must report a VIOLATION whose obligation matches the expectation recorded in the
 # patch header ("# expect: <property> <obligation-substring>").
-# usage: run.sh [property-id]   (no argument: all mutants)
+# usage: run.sh [property-id [name-substring]]   (no argument: all mutants)
 set -u
 export GOFLAGS=-mod=mod GOPROXY=off GOSUMDB=off GOTOOLCHAIN=local
-want="${1:-}"
+want="${1:-}"; only="${2:-}"
 fail=0; n=0
 for m in /verif/selftest/mutants/*.patch; do
   [ -e "$m" ] || continue
   exp=$(grep -m1 '^# expect:' "$m" | sed 's/^# expect: *//')
   prop=${exp%% *}; obl=${exp#* }
   [ -n "$want" ] && [ "$want" != "$prop" ] && continue
+  [ -n "$only" ] && case "$(basename "$m")" in *"$only"*) ;; *) continue;; esac
   n=$((n+1))
   scratch=$(mktemp -d "${TMPDIR:-/tmp}/govc-selftest.XXXXXX")
   rsync -a --exclude .git /repo/ "$scratch/repo/"
